@@ -193,3 +193,60 @@ def shrink_lines(lines, still_fails, protect=("site", "symm", "beta")):
 
 def canon(text):
     return " ; ".join(l.strip() for l in text.strip().split("\n") if l.strip())
+
+
+def asan_tie(chk, cases, function, prefix):
+    """The C17 demonstration: the model's lenient access trace vs AddressSanitizer on the same matrices.
+    cases: [(scenario text, [(harness raw query, model query, label)])]; function: the C++ function expected in the report.
+    A run of the loops as written that leaves the arrays (lenient OOB at a position >= the allocated size of that index array)
+    must be reported by the sanitizer as heap-buffer-overflow, and vice versa.  Returns findings (key, what, replay):
+    memory-safety findings for C17, NOT violations of the calling property (proved result-neutral: gf_fixed_agrees)."""
+    findings = []
+    agree = disagree = 0
+    guarded = None
+    for text, queries in cases:
+        for (rawq, modelq, label) in queries:
+            res, derr, crash, head = run_raw(text, [(rawq, modelq)], variant="asan")
+            if derr or not res:
+                chk.tie_broken("asan tie", "driver failed on %s" % canon(text))
+                continue
+            r = res[0]
+            for t in recs(r.model, "GUARDED"):
+                guarded = t[1] == "1"
+            alloc = {}
+            for t in recs(r.impl, "CS"):
+                alloc[(t[1], int(t[2]))] = (int(t[9]), int(t[8]))      # (allocated, nnz)
+            predicted, where = False, None
+            for t in recs(r.model, "RUN"):
+                if t[1] == "source" and t[4] == "OOB":
+                    a = alloc.get((t[5], int(t[2])))
+                    if a and int(t[6]) >= a[0]:
+                        predicted, where = True, t
+            sanitizer = bool(crash and "AddressSanitizer" in crash[1] and "heap-buffer-overflow" in crash[1])
+            in_function = bool(crash and function in crash[1])
+            if predicted == sanitizer and (not sanitizer or in_function):
+                agree += 1
+            else:
+                disagree += 1
+                chk.tie_broken("asan vs model access trace", "%s of %s: model predicts %s, sanitizer %s (in %s: %s)" % (
+                    label, canon(text), predicted, sanitizer, function, in_function))
+            if sanitizer:
+                findings.append(("chase-oob: %s | %s" % (canon(text), label),
+                                 "heap-buffer-overflow in %s (the chase loop reads index() past the last inner vector; model: %s)" % (
+                                     function, " ".join(where or [])),
+                                 {"harness": "h_c01", "variant": "asan", "scenario": text, "query": rawq, "model_query": modelq,
+                                  "stderr_head": crash[1][:1500]}))
+            chk.case("%s-asan %s | %s" % (prefix, canon(text), label), "asan|predicted=%s|sanitizer=%s" % (predicted, sanitizer), nontrivial=True)
+    # replay files for the C17 owner (written only for the unmodified repository; scratch runs keep theirs private)
+    import hashlib, json, os
+    rdir = os.path.join(pv.ROOT if pv.COQ == pv.COQ_SRC else pv.BUILD, "replays")
+    os.makedirs(rdir, exist_ok=True)
+    for (k, w, rp) in findings:
+        path = os.path.join(rdir, "C17-%s.json" % hashlib.sha1(("C17" + k).encode()).hexdigest()[:10])
+        json.dump({"property": "C17", "kind": "input", "key": k, "what": w, "replay": rp, "found_by": prefix,
+                   "how_to_run": "./check %s --replay %s" % (prefix, path)}, open(path, "w"), indent=1)
+        rp["replay_file"] = path
+    chk.extra["c17_loops"] = {"asan_model_agreements": agree, "disagreements": disagree,
+                              "source_loops_test_iterator_first": guarded,
+                              "findings": [{"key": k, "what": w, "replay": rp.get("replay_file")} for (k, w, rp) in findings]}
+    return findings
